@@ -927,6 +927,8 @@ def run_cases(ctx, cases, tag="cases"):
     res = ctx.coqc_many([f for f, _ in files], jobs=16, timeout=900)
     for f, idxs in files:
         rc, out = res[f]
+        if rc != 0 and not out.strip():  # killed without a message (memory pressure on a loaded host): once more, alone
+            rc, out = ctx.coqc(f, timeout=900)
         vals = parse_coq_eval(out)
         if rc != 0 or not vals:
             mism.append((None, f.name, None, "coqc failed: " + out[-800:]))
@@ -936,6 +938,35 @@ def run_cases(ctx, cases, tag="cases"):
             mism.append((ci, cases[ci][0], cases[ci][1], chk))
     ctx.count(evaluations=len(kept) * NCHECK, traces=len(kept))
     return oracle_fail, mism
+
+
+def a1_probe(ctx):
+    """Known finding A1: the cached accessors hand out their own mutable object; a caller editing a returned
+    list / dict corrupts every later read of that accessor (call, edit, read again)."""
+    from bermuda import CumulativeCell, Metadata, Triangle
+
+    cells = [CumulativeCell(period_start=D(2020, 1, 1), period_end=D(2020, 3, 31), evaluation_date=e,
+                            values={"paid_loss": 1}, metadata=Metadata(country="US")) for e in (D(2020, 3, 31), D(2020, 6, 30))]
+    edits = {"periods": lambda v: v.append((D(1999, 1, 1), D(1999, 1, 31))), "evaluation_dates": lambda v: v.clear(),
+             "fields": lambda v: v.append("zzz"), "metadata": lambda v: v.reverse() or v.append(Metadata(country="XX")),
+             "field_cell_counts": lambda v: v.update(paid_loss=99)}
+    hit = []
+    for name, edit in edits.items():
+        with warnings.catch_warnings():
+            warnings.simplefilter("ignore")
+            t = Triangle(list(cells))
+            before = canon_out(name, attempt(lambda: getattr(t, name)))
+            edit(getattr(t, name))                       # the CALLER edits the value it was given
+            after = canon_out(name, attempt(lambda: getattr(t, name)))
+            ref = canon_out(name, attempt(lambda: getattr(Triangle(list(cells)), name)))
+        if before == ref and after != ref:
+            hit.append(name)
+    if hit:
+        ctx.violation("impl-violation",
+                      f"after the caller edited the value returned by {hit}, a second read no longer agrees with the cells "
+                      "(the cached accessor hands out its own mutable object)",
+                      {"accessor": "aliasing", "label": "A1", "cells": tri_to_json(cells), "edited": hit},
+                      found_input=True, finding_class={"kind": "cached_accessor_result_aliased"})
 
 
 def translate_and_prove(ctx):
@@ -1012,6 +1043,7 @@ def run(ctx):
     ctx.log(f"{len(cases)} cases: {len(ofail)} oracle failures, {len(mism)} model/spec mismatches")
     ctx.obligation("correspondence model = implementation and specs hold on implementation outputs", not mism,
                    repr([(m[1], m[3]) for m in mism[:8]]))
+    a1_probe(ctx)
     report(ctx, ofail, mism)
 
 
